@@ -66,7 +66,26 @@ def transform(p, A):
     return S2 if T is None else np.c_[S2, T]
 
 
+def case_regulariser(ctx, res, p):
+    m = mellon()
+    rng = np.random.default_rng(5)
+    X = rng.normal(size=(12, 2)) * 0.05
+    ls = 0.02
+    a = 1e-3
+    k1 = np.asarray(m.cov.Matern52(ls)(X, X), float)
+    k2 = np.asarray(m.cov.Matern52(a * ls)(a * X, a * X), float)
+    dv = float(np.max(np.abs(k1 - k2)))
+    res.case(("regulariser",), True, {"op": "regulariser", "a": a, "ls": ls})
+    res.dev("kernel_scale_covariance_abs_dev_at_a=1e-3", dv)
+    if dv > 1e-9:
+        res.oracle_fail("the kernel is not exactly scale covariant: k(a x, a y; a ls) != k(x, y; ls) for a = 1e-3 (absolute 1e-12 "
+                        "regulariser of the squared distance)", p, detail={"max_abs_dev": dv, "rho": 1e-12 / (a * ls) ** 2},
+                        signature="C08:regulariser-scale")
+
+
 def run_case(ctx, res, p):
+    if p.get("op") == "regulariser":
+        return case_regulariser(ctx, res, p)
     if p["estimator"] == "dim" and p["kind"] == "scale":
         # Known finding C08:dim-scale — the joint dimensionality/density MAP is not scale covariant: the likelihood maps
         # (d_i, log rho_i) -> (d_i, log rho_i - d_i log a) exactly, but the GP prior on the log-density is not invariant under
@@ -285,6 +304,10 @@ def run(ctx, res):
     budget = ctx["budget"] or (100 if quick else 780)
     t_end = time.time() + budget
     mellon()
+    # recorded finding (inherent, not repaired): the squared-distance regulariser 1e-12 of util.distance is absolute, so the kernel
+    # is not exactly scale covariant - k(a x, a y; a ls) differs from k(x, y; ls) by O(1e-12 / (a ls)^2), which reaches 1e-4 for
+    # data of spread 0.05 scaled by a = 1e-3 (the estimator-level comparisons below budget this with `rho`)
+    run_case(ctx, res, {"op": "regulariser"})
     # every (estimator, transformation) pair once, then sampled
     plan = [("time", "time", True), ("time", "time", False), ("density", "scale", None), ("time", "scale", True),
             ("dim", "scale", None), ("density", "isometry", None), ("time", "isometry", None), ("dim", "isometry", None),
